@@ -140,8 +140,8 @@ theorem C06_point_shape_mismatch_rejected (pts : List PointCon) (p : PointCon) (
   unfold pointRows
   have hnone : pointBound p.g.length (.vec vs) = none := by simp [pointBound, hs, h1, h2]
   rcases hb with hb | hb
-  · rw [mapMOpt_none (fun p => pointBound p.g.length p.lb) pts p hp (by simp only; rw [hb]; exact hnone)]
-  · rw [mapMOpt_none (fun p => pointBound p.g.length p.ub) pts p hp (by simp only; rw [hb]; exact hnone)]
+  · rw [mapMOpt_none (fun p => pointBound p.g.length p.lb) pts p hp (by show pointBound p.g.length p.lb = none; rw [hb]; exact hnone)]
+  · rw [mapMOpt_none (fun p => pointBound p.g.length p.ub) pts p hp (by show pointBound p.g.length p.ub = none; rw [hb]; exact hnone)]
     cases mapMOpt (fun p => pointBound p.g.length p.lb) pts <;> rfl
 
 /-- a path-constraint array bound that NumPy cannot broadcast (length neither 1 nor the number
